@@ -132,10 +132,22 @@ def class_forms(key):
     return raw, clean
 
 
-def class_name_collision(keys):
+ROOT_NAMES = ["Root", "Item", "Model", "Response", "my-model", "Ünit-a", "Api Response", "Данные", "R", "2Root", "Größe"]
+
+
+def root_forms(name):
+    """(name before sanitising, sanitised forms) of a root model called `name` by the user (no inflection applied)"""
+    def cap(x):
+        return x[:1].upper() + x[1:]
+    return name, {cap(re.sub(r"\W", "", unidecode(name))), cap(re.sub(r"\W", "", name))}
+
+
+def class_name_collision(keys, root=None):
     """finding class-name-collision-after-sanitising: two keys whose class names differ when duplicates are
     resolved (before sanitising) but are equal afterwards"""
     forms = [class_forms(k) for k in keys]
+    if root is not None:
+        forms.append(root_forms(root))
     for i in range(len(forms)):
         for j in range(i + 1, len(forms)):
             if forms[i][0] != forms[j][0] and forms[i][1] & forms[j][1]:
@@ -355,6 +367,57 @@ def recursive_samples(draw, universe, strs=None):
 
 
 @st.composite
+def backref_samples(draw, universe, strs=None):
+    """a nested child that refers back to its root model: Root{.., kid: {.., parent: <same keys as Root>}}"""
+    if len(universe) < 3:
+        return draw(recursive_samples(universe, strs))
+    ks = list(draw(st.permutations(universe)))
+    kid, parent = ks[0], ks[1]
+    leaf = scalars(strs)
+    n_root = draw(st.integers(1, max(1, min(3, len(ks) - 2))))
+    root_keys = ks[2:2 + n_root]
+    kid_keys = ["c" + k for k in root_keys[:draw(st.integers(1, len(root_keys)))]]
+    inner = {k: draw(leaf) for k in root_keys}
+    inner[kid] = draw(st.sampled_from([None, None, "absent"]))
+    if inner[kid] == "absent":
+        del inner[kid]
+    k_obj = {k: draw(leaf) for k in kid_keys}
+    k_obj[parent] = [inner] if draw(st.booleans()) else inner
+    root = {k: draw(leaf) for k in root_keys}
+    root[kid] = [k_obj] if draw(st.booleans()) else k_obj
+    return [root]
+
+
+@st.composite
+def same_named_children(draw, universe):
+    """-> (samples, merge policy).  Sibling parents that the number policy merges (N common keys), each with a child object
+    under the same key whose key names are equal but whose value types differ and which has fewer than N keys: the children
+    stay separate models with equal field names, the merged parent refers to both."""
+    ks = list(draw(st.permutations(universe)))
+    n_child = draw(st.integers(1, 2))
+    child_keys = (ks + ["x", "y"])[:n_child]
+    n = n_child + draw(st.integers(1, 2))
+    common = ["f%d" % i for i in range(n - 1)]
+    kid = "kid"
+    vals = draw(st.permutations([1, "s", 1.5, True, [1], None]))
+    npar = draw(st.integers(2, 3))
+    parents = []
+    for i in range(npar):
+        o = {k: i for k in common}
+        o[kid] = {k: vals[i] for k in child_keys}
+        if draw(st.booleans()):
+            o["own%d" % i] = i
+        parents.append(o)
+    if draw(st.booleans()):
+        samples = [{"p%d" % i: o for i, o in enumerate(parents)}]
+        if draw(st.booleans()):
+            samples.append({"p0": parents[-1]})
+    else:
+        samples = [{"p%d" % i: o} for i, o in enumerate(parents)]
+    return samples, [["number", n]]
+
+
+@st.composite
 def shared_child_samples(draw, universe, strs=None):
     """'sub-model shared by two nested models under one root': the only shape with non-empty reference context."""
     if len(universe) < 3:
@@ -526,6 +589,7 @@ def sample_lists(universe, strs=None, max_samples=5, max_leaves=10, weights=None
         presence_samples(universe, strs),
         presence_samples(universe, strs),
         shared_child_samples(universe, strs),
+        backref_samples(universe, strs),
         dictlike_samples(universe, strs),
         literal_boundary_samples(universe, strs),
         comma_collision_samples(universe, strs),
@@ -543,9 +607,11 @@ REGEX_POOL = [r"n_\d+", r"[ab]", r"\d+", r".*", r"n_.*", r"[a-c]", r"\w_\d+"]
 PSEUDO_NAMES = ["IntString", "FloatString", "BooleanString", "IsoDateString", "IsoTimeString", "IsoDatetimeString"]
 
 
-def merge_policies(extra_percents=(), extra_numbers=()):
-    perc = st.sampled_from([50, 70, 100, 30, 99.9, 0.1] + list(extra_percents))
-    num = st.sampled_from([1, 2, 3, 10] + list(extra_numbers))
+def merge_policies(extra_percents=(), extra_numbers=(), zero=False):
+    """zero: include the boundary thresholds percent_0 / number_0 (every pair of models is similar).  Only where names
+    play no part: one class for everything pools fold-equal keys of unrelated objects (finding folded-equal-keys)."""
+    perc = st.sampled_from([50, 70, 100, 30, 99.9, 0.1] + ([0] if zero else []) + list(extra_percents))
+    num = st.sampled_from([1, 2, 3, 10] + ([0] if zero else []) + list(extra_numbers))
     one = st.one_of(st.just(["exact"]), perc.map(lambda p: ["percent", p]), num.map(lambda n: ["number", n]))
     return st.one_of(st.none(), st.none(), st.lists(one, min_size=1, max_size=3))
 
